@@ -32,6 +32,12 @@ let c15 line =
   | None -> "OUT_OF_FUEL"
   | Some ((its, its2), r) -> show_items its ^ "|" ^ show_items its2 ^ "|" ^ hex_of_bytes r
 
+(* decode_eof only, repeated until None, on the whole input (EOF before anything was decoded) *)
+let c15eof line =
+  match decode_all_eof (bytes_of_hex line) with
+  | None -> "OUT_OF_FUEL"
+  | Some (its, r) -> show_items its ^ "|" ^ hex_of_bytes r
+
 (* encode every string of the case into one buffer, then run the decoder on it *)
 let c15enc line =
   let ss = if line = "" then [] else List.map bytes_of_hex (String.split_on_char ',' line) in
@@ -86,9 +92,17 @@ let show_bytes_item = function BOk p -> "O:" ^ blob p | BRemaining -> "R"
 let c13 line =
   let i = String.index line ';' in
   let codec = String.sub line 0 i in
+  (* "<codec>+x": the harness converts the Framed (into_parts/from_parts, into_map_io, into_map_codec) before every poll;
+     the conversions carry buffers and flags over, so the model is the same *)
+  let codec = match String.index_opt codec '+' with Some j -> String.sub codec 0 j | None -> codec in
   let toks = split_nonempty ',' (String.sub line (i + 1) (String.length line - i - 1)) in
+  (* a leading "b<hex>": the Framed is built from parts with this read buffer (FramedParts::with_read_buf), flags empty *)
+  let pre, toks = match toks with
+    | t :: r when t.[0] = 'b' -> (bytes_of_hex (String.sub t 1 (String.length t - 1)), r)
+    | _ -> ([], toks) in
+  let rinit = { rinit with rbuf = pre } in
   let sc = List.map parse_rd toks in
-  let nbytes = List.fold_left (fun a t -> if t.[0] = 'c' then a + (String.length t - 1) / 2 else a) 0 toks in
+  let nbytes = List.length pre + List.fold_left (fun a t -> if t.[0] = 'c' then a + (String.length t - 1) / 2 else a) 0 toks in
   let fuel = nat_of_int (List.length toks + nbytes + 8) and extra = nat_of_int 2 in
   let go dec dec_eof show =
     let out = run_read dec dec_eof fuel extra sc rinit in
@@ -134,6 +148,7 @@ let c14 line =
                fs = List.map parse_fans (split_nonempty ',' f);
                ss = List.map parse_fans (split_nonempty ',' s) } in
     let optoks = split_nonempty ',' ops in
+    let codec = match String.index_opt codec '+' with Some j -> String.sub codec 0 j | None -> codec in
     let enc = match codec with
       | "lines" -> lines_encode | "bytes" -> bytes_encode | "lp" -> lp_encode
       | c -> failwith ("unknown codec " ^ c) in
@@ -149,7 +164,7 @@ let () =
   (* the models allocate long lists; a large minor heap keeps the major GC out of the way *)
   Gc.set { (Gc.get ()) with Gc.minor_heap_size = 8 * 1024 * 1024; Gc.space_overhead = 400 };
   let f = match Sys.argv.(1) with
-    | "c15" -> c15 | "c15enc" -> c15enc | "c13" -> c13 | "c14" -> c14
+    | "c15" -> c15 | "c15enc" -> c15enc | "c15eof" -> c15eof | "c13" -> c13 | "c14" -> c14
     | m -> failwith ("unknown mode " ^ m) in
   try while true do
     let line = input_line stdin in
